@@ -874,6 +874,15 @@ fn hammer(threads: usize, millis: u64, seed: u64) -> Value {
         ("keys", "[keys(a), values(a)]", |t, n, _| json!({"a": (0..n).map(|i| (format!("k{:04}", i), json!(i + t))).collect::<serde_json::Map<String, Value>>()})),
         ("length", "[length(s), length(v), contains(s, 'é'), starts_with(s, 'é')]", |t, n, _| json!({"s": "é".repeat(n) + &t.to_string(), "v": (0..n).collect::<Vec<_>>()})),
         ("flatten", "rows[].id", |t, n, _| json!({"rows": (0..n).map(|i| json!([{"id": i + t}, {"id": -(i as i64)}])).collect::<Vec<_>>()})),
+        ("to_string-deep", "to_string(@)", |t, n, _| {
+            // 33..48 container levels around a record that names the thread
+            let mut v = json!({"tag": format!("doc-{}-{}", t, n)});
+            for k in 0..33 + n % 16 {
+                v = if k % 3 == 2 { json!({"k": v}) } else { json!([v]) };
+            }
+            v
+        }),
+        ("keys-fresh-names", "[keys(o), length(keys(o))]", |t, n, r| json!({"o": (0..8 + n % 5).map(|i| (format!("f{}_{}_{}_{}", t, n, i, r.below(100000)), json!(i))).collect::<serde_json::Map<String, Value>>()})),
         ("to_number", "v[*].to_number(@)", |t, n, _| json!({"v": (0..n).map(|i| format!("{}", 1_700_000_000_000u64 + (i * 7 + t) as u64)).collect::<Vec<_>>()})),
     ];
     let mut mismatches: Vec<Value> = vec![];
@@ -933,6 +942,35 @@ fn hammer(threads: usize, millis: u64, seed: u64) -> Value {
                 thread::sleep(Duration::from_millis(5));
             }
             stop.store(true, Ordering::Relaxed);
+            // every worker leaves its loop after at most one more call. Workers that never come back while the
+            // process burns no CPU at all are blocked on each other: that is decided on CPU time, not on the clock
+            // (a loaded machine makes threads slow, it does not make them stop consuming CPU)
+            let cpu = || -> u64 {
+                std::fs::read_to_string("/proc/self/stat").ok().and_then(|t| {
+                    let rest = t[t.rfind(')')? + 2..].to_string();
+                    let f: Vec<&str> = rest.split(' ').collect();
+                    Some(f.get(11)?.parse::<u64>().ok()? + f.get(12)?.parse::<u64>().ok()?)
+                }).unwrap_or(0)
+            };
+            let mut idle_checks = 0;
+            let mut last = cpu();
+            let w0 = Instant::now();
+            while hs.iter().any(|h| !h.is_finished()) {
+                thread::sleep(Duration::from_millis(500));
+                let now = cpu();
+                if now.saturating_sub(last) <= 1 { idle_checks += 1 } else { idle_checks = 0 }
+                last = now;
+                if idle_checks >= 12 {
+                    let stuck = hs.iter().filter(|h| !h.is_finished()).count();
+                    println!("{}", json!({"mode": "stress", "threads": threads, "searches": 0, "panics": 0, "inputs_mutated": [], "interleaving": format!("hammer{}x{}ms:blocked", threads, millis),
+                        "mismatches": [{"mode": "hammer", "function": name, "expression": text, "observed": format!("{} of {} threads never returned from a call and the process used no CPU for six seconds: they are blocked on each other", stuck, threads)}]}));
+                    std::process::exit(0);
+                }
+                if w0.elapsed() > Duration::from_secs(300) {
+                    println!("{}", json!({"mode": "stress", "threads": threads, "searches": 0, "panics": 0, "inputs_mutated": [], "mismatches": [], "interleaving": "hammer:watchdog", "watchdog": true}));
+                    std::process::exit(0);
+                }
+            }
             hs.into_iter().map(|h| h.join().unwrap_or((vec![], 0, true))).collect()
         });
         for (m, d, p) in results {
@@ -959,10 +997,12 @@ fn hammer(threads: usize, millis: u64, seed: u64) -> Value {
         let arrived = AtomicUsize::new(0);
         let exprs = ["sum(v)", "avg(v)", "max(v)", "length(v)", "sort(v)[0]", "max_by(recs, &n).n", "join('', s)"];
         let compiled: Vec<_> = exprs.iter().map(|x| rt.compile(x).unwrap()).collect();
+        let steps: Vec<AtomicUsize> = (0..80 / threads.max(1) + 2).map(|_| AtomicUsize::new(0)).collect();
+        let gave_up = AtomicBool::new(false);
         let results: Vec<(Vec<Value>, u64, bool)> = thread::scope(|sc| {
             let hs: Vec<_> = (0..threads)
                 .map(|t| {
-                    let (arrived, compiled) = (&arrived, &compiled);
+                    let (arrived, compiled, steps, gave_up) = (&arrived, &compiled, &steps, &gave_up);
                     sc.spawn(move || {
                         let mut mism = vec![];
                         let mut done = 0u64;
@@ -991,7 +1031,20 @@ fn hammer(threads: usize, millis: u64, seed: u64) -> Value {
                             while arrived.load(Ordering::SeqCst) < threads {
                                 std::hint::spin_loop();
                             }
-                            for (d, want) in docs.iter() {
+                            for (step, (d, want)) in docs.iter().enumerate() {
+                                // all threads bring their next new document at the same instant: whatever fills up after N
+                                // documents is crossed by `threads` insertions at once
+                                steps[step].fetch_add(1, Ordering::SeqCst);
+                                let mut spins = 0u32;
+                                while steps[step].load(Ordering::SeqCst) < threads && !gave_up.load(Ordering::Relaxed) {
+                                    spins += 1;
+                                    if spins > 2000 {
+                                        std::thread::yield_now();
+                                    }
+                                    if spins > 40_000_000 {
+                                        gave_up.store(true, Ordering::Relaxed); // a thread died: do not wait for it
+                                    }
+                                }
                                 for (i, e) in compiled.iter().enumerate() {
                                     let g = fp(&e.search(d));
                                     done += 1;
@@ -1001,6 +1054,9 @@ fn hammer(threads: usize, millis: u64, seed: u64) -> Value {
                                 }
                             }
                         }));
+                        if res.is_err() {
+                            gave_up.store(true, Ordering::Relaxed);
+                        }
                         (mism, done, res.is_err())
                     })
                 })
